@@ -1,10 +1,10 @@
 (* C15: clipping, masking and opacity only remove paint. *)
 From RV Require Import Model.Base.
 From RV Require Import Model.F32.
-From RV Require Import Gen.PixelTables.
-From RV Require Import Model.Pixel.
+From RV Require Import Gen.ClipTables.
+From RV Require Import Model.Blend8.
 From RV Require Import Model.ClipMask.
-From RV Require Import Proofs.PixelBase.
+From RV Require Import Proofs.ByteSweep.
 Local Open Scope Q_scope.
 
 Lemma unit_mul : forall a b, unit_q a -> unit_q b -> unit_q (a * b).
